@@ -142,9 +142,12 @@ class ContractMixin:
             region, addr = self.resolve_mod(entry, env, pre)
             ghost = region.startswith("field:__")
             if not ghost:
-                self.check_frame(st, region, addr, node)
+                if addr is None:
+                    self.check_frame_wildcard(st, region, node)
+                else:
+                    self.check_frame(st, region, addr, node)
             self.havoc_region(st, region, addr)
-            if region == "dict":
+            if region == "dict" and addr is not None:
                 # a havoced dict still satisfies its representation invariant
                 dv = self.spec_eval(entry[:-2] if entry.endswith("[]") else entry, env, pre)
                 if dv.kind.target.k is not None:
@@ -232,6 +235,9 @@ class ContractMixin:
         """modifies entry -> (region, address term).  Forms: 'x' (list or dict x), 'x.f' (field f of object x),
         'x.*' (all fields of x), 'e.f' with e any spec expression."""
         entry = entry.strip()
+        if entry.startswith("all:"):
+            # wildcard: 'all:dict' (contents of every dict) or 'all:field:<name>' (that field of every object)
+            return entry[4:], None
         if entry.endswith("[]"):
             v = self.spec_eval(entry[:-2], env, st)
             if is_list(v.kind):
